@@ -2009,7 +2009,8 @@ class SQLGenerator:
         if metric.fill_nulls_with is not None:
             # Quote string values
             if isinstance(metric.fill_nulls_with, str):
-                fill_value = f"'{metric.fill_nulls_with}'"
+                escaped = metric.fill_nulls_with.replace("'", "''")
+                fill_value = f"'{escaped}'"
             else:
                 fill_value = str(metric.fill_nulls_with)
             return f"COALESCE({sql_expr}, {fill_value})"
